@@ -2,6 +2,7 @@ import VD.Val
 import VM.Cache
 import VM.Executor
 import VM.SetupIndep
+import GM.SelectExec
 /-! Line-protocol driver for histories (slice H): one DAG table, several instances, operations
     call / executor run / setup / fork (deep copy) / restart-from-cache.
 
@@ -13,6 +14,10 @@ import VM.SetupIndep
                                                            pred ::= <j> | <j>~ | <j>~k   (~ : used as v[-2][0];  ~k : used as v[-2]["k"])
     O <inst> call <k> <sel>^k <na> <value>^na             DAG call / executor run over selection `sel`
     O <inst> setup <k> <sel>^k
+    O <inst> execT <k> <T>^k <na> <value>^na               executor(target_nodes=T) called once: the SELECTION is computed here
+                                                           (GM.selectNodes: the targets and their ancestors, activation-flag
+                                                           producers included), then like call
+    O <inst> setupT <k> <T>^k                              setup(target_nodes=T): the setup nodes among that selection
     O <inst> peek <k> <sel>^k <na> <value>^na             like call, instance unchanged
     O <inst> fork <newinst>
     O <inst> seeded <k> <sel>^k <m> <cached>^m <na> <value>^na     restart of the run (sel,args) from a cache holding `cached`
@@ -91,6 +96,13 @@ def mkDag (specs : Array NSpec) : Dag Val :=
     interp := mkInterp specs,
     params := [n, n + 1] }
 
+/-- the dependency graph of the table (arguments and activation-flag producers), for selections -/
+def mkGraph (specs : Array NSpec) : GM.G :=
+  { nodes := List.range specs.size,
+    preds := fun i =>
+      let sp := specs.getD i ⟨false, false, false, false, none, []⟩
+      sp.preds.map (·.1) ++ (match sp.flag with | some j => [j] | none => []) }
+
 def takeNats (k : Nat) (t : Toks) : List Nat × Toks := ((t.take k).filterMap String.toNat?, t.drop k)
 
 def reportF (sid : String) (idx : Nat) (n : Nat) (c : ECfg Val) (file : String) : String :=
@@ -147,6 +159,23 @@ def main : IO Unit := do
             | [] => []
           let it := insts.getD inst.toNat! ⟨dag, res0⟩
           let op : Op Val := .call sel args
+          IO.println (report sid idx n (opCfg it op))
+          insts := insts.setIfInBounds inst.toNat! (applyOp it op)
+        | "O" :: inst :: "execT" :: k :: r =>
+          let (T, r1) := takeNats k.toNat! r
+          let sel := GM.selectNodes (mkGraph specs) none none (some T)
+          let args := match r1 with
+            | na :: r2 => (match pVal.pVals na.toNat! r2 with | some (l, _) => l | none => [])
+            | [] => []
+          let it := insts.getD inst.toNat! ⟨dag, res0⟩
+          let op : Op Val := .call sel args
+          IO.println (report sid idx n (opCfg it op))
+          insts := insts.setIfInBounds inst.toNat! (applyOp it op)
+        | "O" :: inst :: "setupT" :: k :: r =>
+          let (T, _) := takeNats k.toNat! r
+          let sel := (GM.selectNodes (mkGraph specs) none none (some T)).filter dag.isSetup
+          let it := insts.getD inst.toNat! ⟨dag, res0⟩
+          let op : Op Val := .setup sel
           IO.println (report sid idx n (opCfg it op))
           insts := insts.setIfInBounds inst.toNat! (applyOp it op)
         | "O" :: inst :: "peek" :: k :: r =>      -- like call, but the instance is left as it is
